@@ -173,7 +173,7 @@ class CallMixin:
             if b.kind == "constobj":
                 yield VFunc("bound", attr, obj=base), st
                 return
-        if isinstance(b, V) and b.sort.kind == "opaque":
+        if isinstance(b, V) and b.sort.kind in ("opaque", "dict"):
             yield VFunc("bound", attr, obj=base), st
             return
         raise Unsupported(f"attribute .{attr} of {getattr(b, 'sort', None) or getattr(b, 'kind', type(b).__name__)}")
@@ -227,10 +227,22 @@ class CallMixin:
             if self.spec_mode and fname == "old":
                 if st.old is None:
                     raise Unsupported("old() outside a postcondition")
-                outs = list(self.ev(node.args[0], st.old.copy()))
+                olds = st.old.copy()
+                outs = list(self.ev(node.args[0], olds))
                 if len(outs) != 1:
                     raise Unsupported("old() expression forks")
-                yield outs[0][0], st
+                val, os_ = outs[0]
+                # references must be resolved in the *old* heap (the value, not the cell)
+                if isinstance(val, VRef):
+                    cur = self.deref(val, os_)
+                    if isinstance(cur, ObjState):
+                        so_ = Sort("rec", (), cur.cls)
+                        val = V(so_, self.to_term(cur, so_, os_))
+                    else:
+                        val = cur
+                for f_ in os_.pc[len(st.old.pc):]:
+                    st.assume(f_)
+                yield val, st
                 return
             if fname in ("all", "any", "sum") and node.args and isinstance(node.args[0], ast.GeneratorExp) and fname not in st.env:
                 yield from self.quantified(fname, node.args[0], st, node.args[1:])
@@ -274,6 +286,10 @@ class CallMixin:
             fv = self.deref(f, st)
             if isinstance(fv, V) and fv.sort.kind == "opt":
                 fv = self.deref(self.unwrap_opt(fv, st, "callee"), st)
+            if isinstance(fv, V) and fv.sort.kind == "dict":
+                # a field holding a bound `dict.get` (represented by the dict itself)
+                yield from self._dict_method(f, fv, "get", args, kwargs, st)
+                return
             if isinstance(fv, V) and fv.sort.kind == "opaque":
                 c = self.reg.contracts.get(("<opaque>", f"{fv.sort.name}.__call__"))
                 if c is None:
